@@ -158,6 +158,8 @@ def binop_inst(op, lk, ta, rk, tb, tier):
         solvers = ('cadical', 'z3') if max(TY[ta][1], TY[tb][1]) >= 32 else ('z3', 'cadical')
     if op in ('/', '%'):
         solvers = ('z3', 'cvc5', 'minisat')
+    if 'float' in (ta, tb) or 'double' in (ta, tb):
+        solvers = ('cadical', 'cvc5', 'minisat')     # minisat needs minutes on int <-> float conversions (measured); cadical / cvc5 seconds
     return Inst(name, '%s, %s' % (p1, p2), 'a %s b;' % op, cl, h, leaves=['dynamic_check'], prop=PROP, root_name='operator' + op, tier=tier, pre=PRE_GHOST,
                 solvers=solvers, timeout=300, replay={'kind': 'numeric_op', 'op': op, 'lk': lk, 'ta': ta, 'rk': rk, 'tb': tb}, note='%s<%s> %s %s<%s>' % (lk, ta, op, rk, tb))
 
